@@ -32,7 +32,7 @@ Record dcfg := mkDcfg { dc : cfg; dc_dup : dup_policy }.
 
 (* ---------- Events: live pump or replay buffer ---------- *)
 Inductive src :=
-| SLive (s : live) (rest : list raw_item)
+| SLive (s : live) (rest : list raw_item) (open : N)   (* open = LiveEvents::open_containers *)
 | SReplay (prev : option ev) (buf : list ev) (ref : option loc).
 
 Inductive nres :=
@@ -40,10 +40,16 @@ Inductive nres :=
 
 Definition src_next (x : src) : nres :=
   match x with
-  | SLive s rest =>
+  | SLive s rest open =>
     match live_next s rest with
-    | Yield e s' rest' => NSome e (SLive s' rest')
-    | Eos s' rest' => NNone (SLive s' rest')
+    | Yield e s' rest' =>
+      let open' := match e with
+                   | ESeqStart _ _ _ _ | EMapStart _ _ => open + 1
+                   | ESeqEnd _ | EMapEnd _ => open - 1          (* saturating_sub *)
+                   | _ => open
+                   end in
+      NSome e (SLive s' rest' open')
+    | Eos s' rest' => NNone (SLive s' rest' open)
     | Fail e _ _ => NErr e
     end
   | SReplay prev buf ref =>
@@ -55,10 +61,10 @@ Definition src_next (x : src) : nres :=
 
 Definition src_peek (x : src) : nres :=
   match x with
-  | SLive s rest =>
+  | SLive s rest open =>
     match live_peek s rest with
-    | Yield e s' rest' => NSome e (SLive s' rest')
-    | Eos s' rest' => NNone (SLive s' rest')
+    | Yield e s' rest' => NSome e (SLive s' rest' open)
+    | Eos s' rest' => NNone (SLive s' rest' open)
     | Fail e _ _ => NErr e
     end
   | SReplay prev buf ref =>
@@ -70,7 +76,7 @@ Definition src_peek (x : src) : nres :=
 
 Definition src_last_location (x : src) : loc :=
   match x with
-  | SLive s _ => lv_last s
+  | SLive s _ _ => lv_last s
   | SReplay prev buf _ =>
     match prev with
     | Some e => ev_loc e
@@ -80,7 +86,7 @@ Definition src_last_location (x : src) : loc :=
 
 Definition src_reference_location (x : src) : loc :=
   match x with
-  | SLive s _ => reference_location s
+  | SLive s _ _ => reference_location s
   | SReplay prev buf ref =>
     match ref with
     | Some l => l
@@ -1289,7 +1295,7 @@ Inductive outcome := OOk (v : val) | OErr (e : err) | OFuel.
 
 Definition from_str_model (fuel : nat) (o : entry_opts) (t : ty) (items : list raw_item) : outcome :=
   let s0 := live_new (eo_budget o) false (eo_limits o) false in
-  match deser fuel (eo_cfg o) false t (SLive s0 items) with
+  match deser fuel (eo_cfg o) false t (SLive s0 items 0) with
   | DFuel => OFuel
   | DErr e =>
     match synthesized_first s0 items with
@@ -1299,7 +1305,7 @@ Definition from_str_model (fuel : nat) (o : entry_opts) (t : ty) (items : list r
   | DOk v x =>
     match x with
     | SReplay _ _ _ => OErr (Err E_Message loc_unknown)
-    | SLive s rest =>
+    | SLive s rest _ =>
       match live_peek s rest with
       | Yield _ s' _ => OErr (Err E_MultipleDocuments (lv_last s'))
       | Eos s' _ =>
@@ -1341,10 +1347,13 @@ Fixpoint from_multiple_loop (fuel : nat) (o : entry_opts) (t : ty) (s : live) (r
         | Yield _ s2 r2 | Eos s2 r2 => from_multiple_loop f o t s2 r2 acc
         end
       else
-        match deser f (eo_cfg o) false t (SLive s' rest') with
+        match deser f (eo_cfg o) false t (SLive s' rest' 0) with
         | DFuel => MFuel
         | DErr e' => MErr e'
-        | DOk v (SLive s2 r2) => from_multiple_loop f o t s2 r2 (v :: acc)
+        | DOk v (SLive s2 r2 open) =>
+          (* fn ensure_root_node_consumed *)
+          if open =? 0 then from_multiple_loop f o t s2 r2 (v :: acc)
+          else MErr (Err E_Unexpected (lv_last s2))
         | DOk _ _ => MErr (Err E_Message loc_unknown)
         end
     end
@@ -1397,15 +1406,7 @@ Fixpoint read_iter (fuel : nat) (o : entry_opts) (t : ty) (s : live) (rest : lis
         | Fail _ s2 r2 => read_iter f o t s2 r2            (* `let _ = self.src.next()` *)
         end
       else
-        match deser f (eo_cfg o) false t (SLive s' rest') with
-        | DFuel => inr tt
-        | DOk v (SLive s2 r2) =>
-          match read_iter f o t s2 r2 with
-          | inl l => inl (IOk v :: l)
-          | inr tt => inr tt
-          end
-        | DOk _ _ => inr tt
-        | DErr e' =>
+        let failed (e' : err) :=
           match skip_to_next_document s' (resume_point e' rest') with
           | (true, s2, r2) =>
             match read_iter f o t s2 r2 with
@@ -1413,7 +1414,28 @@ Fixpoint read_iter (fuel : nat) (o : entry_opts) (t : ty) (s : live) (rest : lis
             | inr tt => inr tt
             end
           | (false, _, _) => inl [IErr e']
-          end
+          end in
+        match deser f (eo_cfg o) false t (SLive s' rest' 0) with
+        | DFuel => inr tt
+        | DOk v (SLive s2 r2 open) =>
+          if open =? 0 then
+            match read_iter f o t s2 r2 with
+            | inl l => inl (IOk v :: l)
+            | inr tt => inr tt
+            end
+          else
+            (* the value stopped inside its node: an error, then the usual skip (from where the
+               stream stands now) *)
+            match skip_to_next_document s2 r2 with
+            | (true, s3, r3) =>
+              match read_iter f o t s3 r3 with
+              | inl l => inl (IErr (Err E_Unexpected (lv_last s2)) :: l)
+              | inr tt => inr tt
+              end
+            | (false, _, _) => inl [IErr (Err E_Unexpected (lv_last s2))]
+            end
+        | DOk _ _ => inr tt
+        | DErr e' => failed e'
         end
     end
   end.
